@@ -196,6 +196,67 @@ def ev(node):
     raise AssertionError(o)
 
 
+ALLK = T.LEAF + T.COMP
+
+
+def pair_case(eg, i, cplx):
+    """systematic stream: a combinator applied directly to operands whose ROOT kinds rotate through all kinds
+    (the dispatch rules are keyed on kinds), incl. BlockDiag with multiplicities and right/left-nested Kronecker products"""
+    r, gen = eg.rnd, eg.gen
+    ops_ = ["mul", "mul", "neg", "div", "add", "sub", "dot", "kron", "kronsum", "kron3r", "kron3l", "block"]
+    combos = eg.combos
+    o, k1 = combos[i % len(combos)]
+    k2 = ALLK[(i * 7 + 3) % len(ALLK)]
+    k3 = ALLK[(i * 11 + 5) % len(ALLK)]
+    if "kron" in o and r.random() < 0.5:   # diagonal factors exercise the fusion rules
+        k1, k2 = r.choice([("Diag", "Diag"), ("Diag", k2), (k1, "Diag")])
+    leaf = lambda t: dict(op="leaf", tree=t, arr=False)
+    a = T.rooted(gen, k1, None, None, cplx=cplx, depth=1)
+    if a is None:
+        return None
+    m, n = T.shape(a)
+    if o in ("mul", "neg", "div"):
+        if o == "neg":
+            return dict(op="neg", x=leaf(a)), None
+        if o == "div":
+            c = r.choice([[1, 0], [-1, 0]] + ([[0, 1], [0, -1]] if cplx else []))
+            return dict(op="div", x=leaf(a), c=c, sk=("complex" if c[1] else r.choice(["int", "float"]))), None
+        c, sk = eg.scalar(cplx)
+        return dict(op="mul", x=leaf(a), c=c, sk=sk, side=r.choice("lr")), None
+    if o in ("add", "sub"):
+        b = T.rooted(gen, k2, m, n, cplx=cplx, depth=1)
+        return (dict(op=o, x=leaf(a), y=leaf(b)), ("Sum",)) if b else None
+    if o == "dot":
+        b = T.rooted(gen, k2, n, None, cplx=cplx, depth=1)
+        if b is None or ("dot_identity_ambiguous" in eg.present and "Ident" in (k1, k2)):
+            return None
+        return dict(op="dot", x=leaf(a), y=leaf(b)), None
+    if o == "block":
+        b = T.rooted(gen, k2, None, None, cplx=cplx, depth=1)
+        return (dict(op="block", l=[leaf(a), leaf(b)]), None) if b else None
+    small = lambda k: T.rooted(gen, k, r.randint(1, 2) if k not in T.SQUARE_ONLY else None, r.randint(1, 2) if k not in T.SQUARE_ONLY else None, cplx=cplx, depth=1)
+    if o == "kronsum":
+        a2, b2 = T.rooted(gen, k1, None, None, cplx=cplx, depth=1), T.rooted(gen, k2, None, None, cplx=cplx, depth=1)
+        if a2 is None or b2 is None or T.shape(a2)[0] != T.shape(a2)[1] or T.shape(b2)[0] != T.shape(b2)[1] or T.shape(a2)[0] * T.shape(b2)[0] > 12:
+            return None
+        if "kronsum_kronsum_ambiguous" in eg.present and k1 == "KronSum" and k2 == "KronSum":
+            return None
+        return dict(op="kronsum", x=leaf(a2), y=leaf(b2)), None
+    a2, b2, c2 = small(k1), small(k2), small(k3)
+    if a2 is None or b2 is None or c2 is None:
+        return None
+    amb = "kron_kronecker_ambiguous" in eg.present
+    if o == "kron":
+        if amb and k1 == "Kron" and k2 == "Kron":
+            return None
+        return dict(op="kron", x=leaf(a2), y=leaf(b2)), None
+    if amb and ("Kron" in (k1,) and o == "kron3r" or "Kron" in (k3,) and o == "kron3l"):
+        return None
+    if o == "kron3r":
+        return dict(op="kron", x=leaf(a2), y=dict(op="kron", x=leaf(b2), y=leaf(c2))), None
+    return dict(op="kron", x=dict(op="kron", x=leaf(a2), y=leaf(b2)), y=leaf(c2)), None
+
+
 class ShapeErr(Exception):
     pass
 
@@ -289,12 +350,23 @@ def run(ctx):
     n = ctx.budget(500, 5000)
     cases, obs = [], []
     tries = 0
+    ops_u = ["mul", "neg", "div", "add", "sub", "dot", "kron", "kronsum", "kron3r", "kron3l", "block"]
+    eg.combos = [(o_, k_) for o_ in ops_u for k_ in ALLK]
+    rnd.shuffle(eg.combos)
+    pc_i = 0   # position in the (combinator x root kind) sweep: 198 combinations, all visited in every run
     while len(cases) < n and tries < 30 * n:
         tries += 1
         cplx = rnd.random() < 0.45
         if "mul_complex_scalar_real_op" in present:
             pass  # complex scalars are only drawn for all-complex expressions (EGen.scalar), real ones for real
-        node, _ = eg.expr(rnd.randint(1, ctx.budget(3, 4)), None, cplx)
+        if tries % 2 == 0:
+            pc_i += 1
+            pc = pair_case(eg, pc_i, cplx)
+            if pc is None:
+                continue
+            node = pc[0]
+        else:
+            node, _ = eg.expr(rnd.randint(1, ctx.budget(3, 4)), None, cplx)
         if size(node) > ctx.budget(12, 30):
             continue
         trees_ = all_trees(node, [])
@@ -328,7 +400,9 @@ def run(ctx):
             m_, n_ = A.shape
             dts = {d for t in trees_ for d in O.leaf_dts(t)}
             xc = cplx and rnd.random() < 0.5
-            dx = sorted(dts)[0] if ("kronsum_inplace_dtype" in c01_present and "kronsum" in str(node)) else rnd.choice(T.CPLX if xc else T.REAL)
+            ks_region = "kronsum_inplace_dtype" in c01_present and ("kronsum" in str(node) or any(O.has_kind(t, ("KronSum",)) for t in trees_))
+            anyc = any(d in T.CPLX for d in dts)
+            dx = rnd.choice(T.CPLX) if (ks_region and anyc) else rnd.choice(T.CPLX if xc else T.REAL)
             X = O.rand_mat(rnd, n_, k, dx in T.CPLX)
             Dd = A.to_dense()
             Y = A @ O.np_of(X, n_, k, dx)
